@@ -539,9 +539,17 @@ func checkC03Forwarder(p *Prog, r *Report, rFw, rId, rOrd *Rule, top *ssa.Functi
 	okEdge := map[Edge]bool{}
 	/* The !ok (queue closed) edge legitimately skips. */
 	if okV := selectExtracts(dq)[1]; nil != okV {
-		for _, ref := range *okV.Referrers() {
-			if ifi, ok := ref.(*ssa.If); ok {
-				okEdge[Edge{ifi.Block().Index, ifi.Block().Succs[1].Index}] = true
+		for _, b := range top.Blocks {
+			ifi := blockIf(b)
+			if nil == ifi {
+				continue
+			}
+			if dc := decodeCond(ifi.Cond); nil == dc.Y && dc.X == ssa.Value(okV) {
+				notOK := 1
+				if !dc.Eq {
+					notOK = 0
+				}
+				okEdge[Edge{b.Index, b.Succs[notOK].Index}] = true
 			}
 		}
 	}
